@@ -45,3 +45,36 @@ func VerifC04SSHWork() {
 	zzverif.Assert(wc.closed >= 1, "C04.sshwork.refused-work-connection-closed")
 	zzverif.Reach("C04.sshwork.public-without-key")
 }
+
+// VerifC04Disturb: a refused login does not disturb an existing session, whatever it claims - also
+// the run id of that very session.
+func VerifC04Disturb() {
+	ver := &zzVerifier{loginOK: true}
+	svr := zzService(ver, zzNoPlugins())
+	live := &zzConn{name: "live-session"}
+	live.script = []msg.Message{&msg.Login{RunID: "r1"}}
+	svr.handleConnection(context.Background(), live, false)
+	zzverif.Assume(zzSessions(svr) == 1)
+	ctl, ok := svr.ctlManager.GetByID("r1")
+	zzverif.Assume(ok)
+
+	ver.loginOK = zzverif.Bool("secondLoginHasTheKey")
+	second := &zzConn{name: "second"}
+	second.script = []msg.Message{&msg.Login{RunID: []string{"r1", "r2", ""}[zzverif.Choice("claimedRunID", 3)]}}
+	claimed := second.script[0].(*msg.Login).RunID
+	// an accepted re-login under the same run id waits for the old session's teardown (C12.relogin*)
+	zzverif.Assume(!(ver.loginOK && claimed == "r1"))
+	svr.handleConnection(context.Background(), second, false)
+	if !ver.loginOK {
+		now, still := svr.ctlManager.GetByID("r1")
+		zzverif.Assert(still && now == ctl, "C04.disturb.refused-login-leaves-the-named-session-registered")
+		zzverif.Assert(live.closed == 0, "C04.disturb.refused-login-leaves-the-named-session's-connection-open")
+		zzverif.Assert(zzSessions(svr) == 1, "C04.disturb.refused-login-leaves-no-state")
+		zzverif.Assert(second.closed >= 1, "C04.disturb.refused-login-closed")
+		zzverif.Reach("C04.disturb.refused")
+		return
+	}
+	now, still := svr.ctlManager.GetByID("r1")
+	zzverif.Assert(still && now == ctl && live.closed == 0, "C04.disturb.another-session-does-not-disturb-this-one")
+	zzverif.Reach("C04.disturb.beside")
+}
